@@ -1,3 +1,4 @@
 export type Query__OnlyOneRootLoadablePet__raw_response_type = {
+  __typename: "Query",
 }
 
